@@ -437,6 +437,9 @@ func (w *World) planInitialTasks() {
 			trig := []string{"manual", "msg", "manual_batch", "manual_params", "campaign", "channel", "optin", "ticket"}[t.Weighted("trigger", 10, 8, 2, 2, 1, 1, 1, 1)]
 			task := &Task{Kind: tStart, Contact: i, Flow: t.Pick("startflow", len(w.Sc.Flows)), Trigger: trig,
 				At: w.Now.Add(time.Duration(t.Pick("startdelay_m", 60*24*3)) * time.Minute)}
+			if w.Sc.Marathon && i == 0 && k == 0 {
+				task.Flow = 0 // the long conversation is this contact's first
+			}
 			if trig == "msg" {
 				task.Text = w.personaText(nil)
 			}
@@ -476,6 +479,10 @@ func (w *World) Run() {
 	}
 	if maxCalls == 0 {
 		maxCalls = 25
+	}
+	if w.Sc != nil && w.Sc.Marathon && w.Cfg.MaxCalls == 0 {
+		maxTasks, maxCalls = 700, 150 // the long conversation
+		w.probe("marathon_world")
 	}
 	end := simStart.Add(14 * 24 * time.Hour)
 	for w.queue.Len() > 0 && !w.stopped && w.nTasks < maxTasks && len(w.Calls) < maxCalls {
